@@ -73,9 +73,9 @@ def impl(fn, *a, **k):
     except Violation:
         raise
     except BaseException as e:  # noqa: B902
-        if isinstance(e, (KeyboardInterrupt, SystemExit, MemoryError)):
+        if isinstance(e, (KeyboardInterrupt, SystemExit)):
             raise
-        return Raised(e)
+        return Raised(e)  # incl. MemoryError: e.g. fastavro asked to read a garbage-declared 2**40 byte string
 
 
 class Part:
